@@ -78,9 +78,11 @@ theorem Frame.clearDirty (p : Program) (s : St) (k d : Key) : Frame p s (clearDi
     · intro h; cases h
     · exact id
   inputs := rfl
+  ext := rfl
+  world := rfl
   keep := fun _ n _ h => ⟨n, h, rfl, rfl⟩
   same_or_verified := fun _ => Or.inl rfl
-  log := ⟨[], by simp [Qbice.Core.clearDirty]⟩
+  log := Frame.log_nil rfl (fun _ h => h)
 
 theorem Inv.stamp' {p : Program} {s : St} (inv : Inv p s) {k : Key} {n : Node}
     (hk : s.nodes k = some n) (hc : ∀ d o, (d, o) ∈ n.deps → s.dirty k d = false) :
@@ -96,7 +98,7 @@ theorem Inv.stamp' {p : Program} {s : St} (inv : Inv p s) {k : Key} {n : Node}
     · intro y d _ h; exact h
   have nodeAt : ∀ x nx, (setNode s k { n with lastVerified := s.epoch }).nodes x = some nx →
       ∃ nx0, s.nodes x = some nx0 ∧ nx.value = nx0.value ∧ nx.deps = nx0.deps ∧
-        nx.isInput = nx0.isInput ∧ (x ≠ k → nx = nx0) ∧ (x = k → nx.lastVerified = s.epoch) := by
+        nx.kind = nx0.kind ∧ (x ≠ k → nx = nx0) ∧ (x = k → nx.lastVerified = s.epoch) := by
     intro x nx hx
     simp only [setNode] at hx
     by_cases e : x = k
@@ -147,6 +149,16 @@ theorem Frame.stamp' (p : Program) {s : St} {k : Key} {n : Node} (hk : s.nodes k
     by_cases e : x = k
     · subst e; rw [if_pos rfl, hk]
     · rw [if_neg e]
+  ext := by
+    have : pinsOf (setNode s k { n with lastVerified := s.epoch }) = pinsOf s := by
+      funext x
+      simp only [pinsOf, setNode]
+      by_cases e : x = k
+      · subst e; rw [if_pos rfl, hk]
+      · rw [if_neg e]
+    simp only [extOf, this]
+    rfl
+  world := rfl
   keep := by
     intro y ny _ hy
     simp only [setNode]
@@ -158,7 +170,11 @@ theorem Frame.stamp' (p : Program) {s : St} {k : Key} {n : Node} (hk : s.nodes k
     by_cases e : x = k
     · subst e; exact Or.inr ⟨{ n with lastVerified := s.epoch }, by simp [setNode], rfl⟩
     · exact Or.inl (by simp [setNode, e])
-  log := ⟨[], by simp [setNode]⟩
+  log := Frame.log_nil rfl (fun x h => by
+    simp only [setNode]
+    by_cases e : x = k
+    · subst e; rw [hk] at h; cases h
+    · rw [if_neg e]; exact h)
 
 theorem Touches.stamp' (s : St) (k : Key) (n : Node) : Touches (k + 1) s (setNode s k n) := by
   intro x hx
@@ -251,6 +267,6 @@ theorem repairDeps_spec {p : Program} {q : Q} {k : Key} (hq : QSpec p q k) {n : 
           · intro hb
             obtain ⟨d', o', hm', hne⟩ := ht hb
             refine ⟨d', o', List.mem_cons_of_mem _ hm', ?_⟩
-            rw [← cur_congr f2.inputs]; exact hne
+            rw [← f2.cur]; exact hne
 
 end Qbice.Core
